@@ -46,12 +46,18 @@ def generateAESIGE (H : Bytes → Bytes) (msgKey authKey : Bytes) (decode : Bool
   .ok (slice a 0 8 ++ slice b 8 20 ++ slice c 4 16,
        slice a 8 20 ++ slice b 0 8 ++ slice c 16 20 ++ slice d 0 8)
 
+/-- the key schedule as `Encrypt` / `Decrypt` reach it: behind `checkAuthKey`, which answers a key the schedule
+cannot work with by an error (the panic of `generateAESIGE` is not reachable from there) -/
+def keysG (H : Bytes → Bytes) (msgKey authKey : Bytes) (decode : Bool) : Outcome (Bytes × Bytes) :=
+  if authKey.length < 96 + (if decode then 8 else 0) + 32 then .err "shortKey"
+  else generateAESIGE H msgKey authKey decode
+
 /-- the zero padding of `Encrypt`: `make([]byte, len(msg)+((16-(len(msg)%16))&15))` + `copy` -/
 def padZero (msg : Bytes) : Bytes := msg ++ zeros ((16 - msg.length % 16) &&& 15)
 
 /-- `Encrypt(msg, key)` -/
 def encryptMsg (H : Bytes → Bytes) (E : Bytes → Bytes → Bytes) (msg key : Bytes) : Outcome Bytes :=
-  match generateAESIGE H (messageKey H msg) key false with
+  match keysG H (messageKey H msg) key false with
   | .panic s => .panic s
   | .err e => .err e
   | .ok (aesKey, aesIV) =>
@@ -63,7 +69,7 @@ def encryptMsg (H : Bytes → Bytes) (E : Bytes → Bytes → Bytes) (msg key : 
 
 /-- `Decrypt(msg, key, checkData)` -/
 def decryptMsg (H : Bytes → Bytes) (D : Bytes → Bytes → Bytes) (msg key msgKey : Bytes) : Outcome Bytes :=
-  match generateAESIGE H msgKey key true with
+  match keysG H msgKey key true with
   | .panic s => .panic s
   | .err e => .err e
   | .ok (aesKey, aesIV) =>
